@@ -108,9 +108,14 @@ class Builder:
         self.n_ext += 1
 
     # ------------------------------------------------------------ positions
+    def pos_binop_bit(self):
+        a, b = self.two()
+        op = self.r.choice(["BOr", "BXor", "BAnd"])
+        self.add_test("binop_" + op, U256, [S("return", e=E("bin", U256, op=op, a=a, b=b))])
+
     def pos_binop(self):
         a, b = self.two()
-        op = self.r.choice(["Add", "Sub", "Mul", "BOr", "BXor", "BAnd"])
+        op = self.r.choice(["Add", "Sub", "Mul"])
         if op == "Sub":
             a = E("bin", U256, op="Add", a=a, b=c(5))
         self.add_test("binop_" + op, U256, [S("return", e=E("bin", U256, op=op, a=a, b=b))])
@@ -198,10 +203,17 @@ class Builder:
 
     def pos_aug_scalar(self):
         # target value is read before the right-hand side's effect on the same variable
-        op = self.r.choice(["Add", "Mul", "BXor"])
+        op = self.r.choice(["Add", "Mul"])
         pre = self.r.choice([1, 2, 7])
         self.add_test("aug_scalar_" + op, U256, [
             S("assign", base=bsto(SV), path=[], e=c(pre), decl=None),
+            S("aug", op=op, ty=U256, base=bsto(SV), path=[], e=self.call("bump")),
+            S("return", e=sto(SV))])
+
+    def pos_aug_scalar_bit(self):
+        op = self.r.choice(["BXor", "BOr", "BAnd"])
+        self.add_test("aug_scalar_" + op, U256, [
+            S("assign", base=bsto(SV), path=[], e=c(self.r.choice([5, 7, 12])), decl=None),
             S("aug", op=op, ty=U256, base=bsto(SV), path=[], e=self.call("bump")),
             S("return", e=sto(SV))])
 
@@ -344,9 +356,9 @@ class Builder:
             S("assign", base=bsto(ARR), path=[("i", c(1))], e=c(8), decl=None),
             S("return", e=self.call("h", E("idx", U256, a=sto(ARR), i=c(1)), self.call("wr")))])
 
-    POSITIONS = ["binop", "binop_nested", "divmod", "compare", "boolop", "boolop3", "not_neg", "ifexp", "call_args",
+    POSITIONS = ["binop", "binop_bit", "binop_nested", "divmod", "compare", "boolop", "boolop3", "not_neg", "ifexp", "call_args",
                  "call_args_nested", "subscript_read", "subscript_2d", "subscript_of_call", "assign_target",
-                 "assign_target_2d", "assign_field", "aug_scalar", "aug_local", "read_before_effect",
+                 "assign_target_2d", "assign_field", "aug_scalar", "aug_scalar_bit", "aug_local", "read_before_effect",
                  "read_before_container_effect", "return", "list_literal", "dyn_literal", "loop_iterable",
                  "loop_iterable_dyn", "loop_range_bound", "log_args", "log_args3", "builtin_args", "convert_len",
                  "append_pop", "pop_both", "assert", "if_cond", "by_value_array", "by_value_storage_array",
